@@ -3,7 +3,7 @@ import re
 
 from cfg import cfg_of
 from expr import Exprs, fmt, walk, contains, strip_tags
-from mirutil import is_call, dominating_conds, cond_bool, for_loops
+from mirutil import is_call, dominating_conds, cond_bool, for_loops, local_updates
 from framework import site_of
 
 EXPLANATION = (
@@ -63,25 +63,25 @@ def run(F, rep):
             if bi in main["body"] and "HashSet" in t.get("callee_disp", "") and t["callee"].endswith("::contains") and not t["sp"].get("exp"):
                 conds = dominating_conds(f, bi, ex)
                 tested = strip_tags(ex.operand(t["args"][1]))
-        # S1: segment_start updates inside the loop
-        starts = []
-        fronts = []
-        for bi in sorted(main["body"]):
-            b = f.blocks[bi]
-            for s in b["stmts"]:
-                if s["k"] == "assign" and not s["pl"]["p"]:
-                    nm = f.local_names().get(s["pl"]["l"])
-                    if nm == "segment_start":
-                        starts.append((bi, s, strip_tags(ex.rvalue(s["rv"]))))
-                    if nm == "front_kmer":
-                        fronts.append((bi, s, strip_tags(ex.rvalue(s["rv"]))))
-            t = b["term"]
-            if t["k"] == "call" and not t["dest"]["p"]:
-                nm = f.local_names().get(t["dest"]["l"])
-                if nm == "segment_start":
-                    starts.append((bi, t, strip_tags(ex.call(t))))
-                if nm == "front_kmer":
-                    fronts.append((bi, t, strip_tags(ex.call(t))))
+        # S1: the segment start and the carried front k-mer are found by the shape of their in-loop updates
+        ups = local_updates(f, ex)
+        starts = [(bi, None, e) for nm, bi, e, er in ups if bi in main["body"] and re.match(r"(?:num::saturating_sub|Sub)\(Add\(1, ", fmt(e)) and f.locals[names_rev(f)[nm]]["ty"] == "usize"]
+        SV = {nm for nm, bi, e, er in ups if bi in main["body"] and re.match(r"(?:num::saturating_sub|Sub)\(Add\(1, ", fmt(e)) and f.locals[names_rev(f)[nm]]["ty"] == "usize"}
+        # the start may be computed into a helper local first (`let new_start = ..; segment_start = new_start`)
+        SV |= {nm for nm, bi, e, er in ups if bi in main["body"] and isinstance(e, tuple) and e[0] == "var" and e[1] in SV}
+        SV = {nm for nm in SV if any(nm == n2 and b2 not in main["body"] for n2, b2, _, _ in ups)} or SV   # the one initialised before the loop
+        fronts = [(bi, None, e) for nm, bi, e, er in ups if bi in main["body"] and f.locals[names_rev(f)[nm]]["ty"] == "u64"
+                  and tested is not None and (e == tested or _same_value(f, ex, e, tested)) and any(nm == n2 and b2 not in main["body"] for n2, b2, _, _ in ups)]
+        CV = {nm for nm, bi, e, er in ups if bi in main["body"] and f.locals[names_rev(f)[nm]]["ty"] == "u64"
+              and tested is not None and (e == tested or _same_value(f, ex, e, tested)) and any(nm == n2 and b2 not in main["body"] for n2, b2, _, _ in ups)}
+        svar = next(iter(SV)) if len(SV) == 1 else None
+        cvar = next(iter(CV)) if len(CV) == 1 else None
+        rep.ob("C10-S1", "%s: one running segment start and one carried front k-mer" % name, svar is not None and cvar is not None,
+               detail="start %s, carried front %s" % (sorted(SV), sorted(CV)), key="C10-S1 | %s | state variables" % f.key)
+        if svar is None or cvar is None:
+            continue
+        starts = [(bi, None, e) for nm, bi, e, er in ups if bi in main["body"] and nm == svar]
+        starts = [(bi, s, _resolve_var(ups, main, e)) for bi, s, e in starts]
         okS1 = False
         why = "no assignment to the segment start inside the loop"
         for bi, s, e in starts:
@@ -90,12 +90,12 @@ def run(F, rep):
             okS1 = bool(m) and "next(iter)" in fe
             why = "segment_start = %s" % fe
         rep.ob("C10-S1", "%s: next segment starts k bases before the end of the previous one ((pos + 1) - k)" % name, okS1 and len(starts) == 1, detail=why,
-               site=site_of(f, starts[0][1]) if starts else None, key="C10-S1 | %s | overlap" % f.key)
+               site="%s:%d" % (f.file, f.line_lo), key="C10-S1 | %s | overlap" % f.key)
         # in-loop segment data = contig[segment_start .. pos+1]
         for bi, t in inloop:
             a = [strip_tags(ex.operand(x)) for x in t["args"]]
             data = fmt(a[0])
-            okd = re.fullmatch(r"slice::to_vec\(index\(contig, Range::Range\{start: segment_start, end: Add\(1, .*next\(iter\).*\)\}\)\)", data) is not None
+            okd = re.fullmatch(r"slice::to_vec\(index\(contig, Range::Range\{start: %s, end: Add\(1, .*next\(iter\).*\)\}\)\)" % re.escape(svar), data) is not None
             rep.ob("C10-S1", "%s: an in-loop segment is contig[segment_start .. pos+1]" % name, okd, detail=data[:160], site=site_of(f, t), key="C10-S1 | %s | in-loop slice" % f.key)
             # S2: back k-mer == tested value == next front k-mer
             back = a[2]
@@ -106,8 +106,8 @@ def run(F, rep):
                    okb and okf, detail="tested %s; back %s; next front %s" % (fmt(tested), fmt(back), [fmt(x) for x in nf]), site=site_of(f, t),
                    key="C10-S2 | %s | boundary bookkeeping" % f.key)
             front = a[1]
-            okfront = front == ("var", "front_kmer") or _front_ok(f, ex, front)
-            rep.ob("C10-S2", "%s: the segment's front k-mer is the carried one (missing for the first segment)" % name, okfront, detail=fmt(front), site=site_of(f, t),
+            okfront, why = _carried_front(f, ex, front, cvar)
+            rep.ob("C10-S2", "%s: the segment's front k-mer is the carried one (missing for the first segment)" % name, okfront, detail=why, site=site_of(f, t),
                    key="C10-S2 | %s | front" % f.key)
             # S3
             conds = [(fmt(strip_tags(c[0])), cond_bool(c[1], c[2])) for c in dominating_conds(f, bi, ex)]
@@ -117,7 +117,7 @@ def run(F, rep):
                    detail="guards: %s" % [c for c in conds if c[1] is not None][-4:], site=site_of(f, t), key="C10-S3 | %s | split guard" % f.key)
         # initial front is MISSING
         init = [strip_tags(ex.rvalue(s["rv"])) for bi, b in enumerate(f.blocks) if bi not in main["body"] for s in b["stmts"]
-                if s["k"] == "assign" and not s["pl"]["p"] and f.local_names().get(s["pl"]["l"]) == "front_kmer"]
+                if s["k"] == "assign" and not s["pl"]["p"] and f.local_names().get(s["pl"]["l"]) == cvar]
         rep.ob("C10-S2", "%s: the carried front k-mer starts as missing" % name, init == [("const", MISSING)], detail=str([fmt(x) for x in init]), key="C10-S2 | %s | initial front" % f.key)
         # S4: fallbacks and final segment
         whole = [(bi, t) for bi, t in after if fmt(strip_tags(ex.operand(t["args"][0]))) == "clone(contig)"]
@@ -133,11 +133,15 @@ def run(F, rep):
                okw and short_ok and empty_ok, detail="whole-contig constructions: %d; short guard %s; empty guard %s" % (len(whole), short_ok, empty_ok),
                site="%s:%d" % (f.file, f.line_lo), key="C10-S4 | %s | fallbacks" % f.key)
         fin = [(bi, t) for bi, t in after if "RangeFrom" in fmt(strip_tags(ex.operand(t["args"][0])))]
-        okfin = len(fin) == 1 and fmt(strip_tags(ex.operand(fin[0][1]["args"][0]))) == "slice::to_vec(index(contig, RangeFrom::RangeFrom{start: segment_start}))"
+        okfin = len(fin) == 1 and fmt(strip_tags(ex.operand(fin[0][1]["args"][0]))) == "slice::to_vec(index(contig, RangeFrom::RangeFrom{start: %s}))" % svar
         backfin = fin and _back_missing(f, ex, strip_tags(ex.operand(fin[0][1]["args"][2])))
         rep.ob("C10-S4", "%s: the final segment is contig[segment_start..] with a missing back k-mer" % name, okfin and bool(backfin),
                detail=fmt(strip_tags(ex.operand(fin[0][1]["args"][0])))[:120] if fin else "no final segment", site=site_of(f, fin[0][1]) if fin else None,
                key="C10-S4 | %s | final segment" % f.key)
+        for bi, t in fin:
+            okff, why = _carried_front(f, ex, strip_tags(ex.operand(t["args"][1])), cvar)
+            rep.ob("C10-S2", "%s: the final segment's front k-mer is the carried one (the last boundary k-mer, missing only if there was no split)" % name,
+                   okff, detail=why, site=site_of(f, t), key="C10-S2 | %s | final front" % f.key)
         # early return for the short contig: exactly one segment
         summaries[name] = (okS1, len(inloop), len(after))
     rep.ob("C10-S6", "both segmenters have the same construction skeleton (in-loop split, final, two whole-contig fallbacks)",
@@ -194,21 +198,70 @@ def _same_value(f, ex, a, b):
     return False
 
 
-def _front_ok(f, ex, front):
-    tv = _tuple_field_values(f, ex, front)
-    if tv is not None:
-        return all(x in (("var", "front_kmer"), ("const", MISSING)) for x in tv)
-    # `if front_kmer == MISSING { MISSING } else { front_kmer }` collapses to a variable with those two definitions
-    if isinstance(front, tuple) and front[0] == "var":
-        for l, n in f.local_names().items():
-            if n == front[1]:
-                ds = [d for d in ex.defs.get(l, []) if d[0] == "rv"]
-                vals = {fmt(strip_tags(ex.rvalue(d[3]))) for d in ds}
-                if vals and vals <= {"front_kmer", str(MISSING)}:
-                    return True
-    if isinstance(front, tuple) and front[0] == "field":
-        return True if "front" in fmt(front) or fmt(front).endswith(".0") else False
-    return False
+def names_rev(f):
+    return {n: l for l, n in f.local_names().items()}
+
+
+def _resolve_var(ups, main, e):
+    """a helper local assigned once inside the loop stands for its value"""
+    if isinstance(e, tuple) and e[0] == "var":
+        ds = [x for nm, bi, x, er in ups if nm == e[1]]
+        if len(ds) == 1:
+            return ds[0]
+    return e
+
+
+def _value_defs(f, ex, e):
+    """[(value, defining block)] for an operand that is a multi-branch local or a field of a multi-branch tuple"""
+    if isinstance(e, tuple) and e[0] == "field" and isinstance(e[1], tuple) and e[1][0] == "var":
+        name, idx = e[1][1], e[2]
+        loc = int(name[1:]) if name.startswith("_") and name[1:].isdigit() else names_rev(f).get(name)
+        out = []
+        for d in ex.defs.get(loc, []):
+            if d[0] == "rv" and d[3]["k"] == "agg" and d[3]["ak"] == "tuple":
+                dd = dict(strip_tags(ex.rvalue(d[3]))[2])
+                if str(idx) not in dd:
+                    return None
+                out.append((dd[str(idx)], d[1]))
+            else:
+                return None
+        return out or None
+    if isinstance(e, tuple) and e[0] == "var":
+        loc = int(e[1][1:]) if e[1].startswith("_") and e[1][1:].isdigit() else names_rev(f).get(e[1])
+        out = []
+        for d in ex.defs.get(loc, []):
+            if d[0] == "rv":
+                out.append((strip_tags(ex.rvalue(d[3])), d[1]))
+            else:
+                return None
+        return out or None
+    return None
+
+
+def _carried_front(f, ex, front, cvar):
+    """the recorded front k-mer equals the carried variable on every path: either the variable itself, or the
+    missing constant in a branch where the variable was just tested to be missing"""
+    C = ("var", cvar)
+    if front == C:
+        return True, "front = %s" % cvar
+    vd = _value_defs(f, ex, front)
+    if vd is None:
+        return False, "front k-mer %s is not the carried k-mer `%s`" % (fmt(front), cvar)
+    for v, bi in vd:
+        if v == C:
+            continue
+        if v == ("const", MISSING):
+            conds = [(strip_tags(c[0]), cond_bool(c[1], c[2])) for c in dominating_conds(f, bi, ex)]
+            eq = [(("bin", "Eq", ("const", MISSING), C), True), (("bin", "Eq", C, ("const", MISSING)), True),
+                  (("bin", "Ne", ("const", MISSING), C), False), (("bin", "Ne", C, ("const", MISSING)), False)]
+            if any(c in eq for c in conds):
+                continue
+            return False, "front k-mer is the missing constant in a branch not guarded by `%s == MISSING` (guards: %s)" % (
+                cvar, [(fmt(c), v2) for c, v2 in conds if v2 is not None][-2:])
+        sub_ok, why = _carried_front(f, ex, v, cvar) if v != front else (False, "")
+        if not sub_ok:
+            return False, "front k-mer value %s is not the carried k-mer `%s`" % (fmt(v), cvar)
+    return True, "front = %s on every branch (missing only where %s == MISSING)" % (cvar, cvar)
 
 
 def _back_missing(f, ex, back):
